@@ -9,6 +9,8 @@ Driver for C05.
     lc = `0` or `key:coef` joined by `;` sorted by key (`E` = empty cobordism, else `x,y`),
     coef = integer, or `0` / `c*a.b` joined by `+` sorted by (a,b) for polynomials.
 
+`new <reduced 0|1> <link non-empty 0|1> <t is zero 0|1>` ↦ `ok` | `panic`   (constructor assertion)
+
 `hom <h0> <t0> <red 0|1> <ref 0|1> <imin> <k> <n_0> … <n_{k-1}> <M_0> … <M_{k-2}> | <link>`
     M_i = matrix of `d_i : C_i → C_{i+1}` as `RxC:i.j.v,…` (`RxC:` when zero), integer entries
     ↦ `dd=<ok|FAIL@i> mat=<table> ref=<table|->`
@@ -148,6 +150,10 @@ def handle (ts : List String) : String :=
       match h, t with
       | .num h, .num t => some (cobReply (R := Int) toString h t (closed == 1) nbdr endpts g x y)
       | h, t => some (cobReply (R := HT) htStr h.toHT t.toHT (closed == 1) nbdr endpts g x y)
+    | ["new", red, nonEmpty, tZero] =>
+      let red ← parseNat? red; let ne ← parseNat? nonEmpty; let tz ← parseNat? tZero
+      if red > 1 || ne > 1 || tz > 1 then none
+      some (resStr (fun _ => "ok") (ctorGuard (red == 1) (ne == 1) (tz == 1)))
     | "hom" :: h0 :: t0 :: red :: ref :: imin :: k :: rest =>
       let h0 ← parseInt? h0; let t0 ← parseInt? t0
       let red ← parseNat? red; let ref ← parseNat? ref
